@@ -144,8 +144,16 @@ func (p *Paragraph) AddInlineMath(ommlContent string) {
 // namespace prefixes that are bound (m, w, xml, or declared in the fragment).
 func isWellFormedMathFragment(s string) bool {
 	decoder := xml.NewDecoder(strings.NewReader("<m:oMath>" + s + "</m:oMath>"))
-	bound := map[string]bool{"m": true, "w": true, "xml": true}
-	var used []string
+	// 命名空间前缀的声明只在声明它的元素及其后代内有效：按元素嵌套维护作用域
+	scopes := []map[string]bool{{"m": true, "w": true, "xml": true}}
+	isBound := func(prefix string) bool {
+		for i := len(scopes) - 1; i >= 0; i-- {
+			if scopes[i][prefix] {
+				return true
+			}
+		}
+		return false
+	}
 	depth := 0
 	closed := false
 	for {
@@ -159,7 +167,7 @@ func isWellFormedMathFragment(s string) bool {
 		switch t := token.(type) {
 		case xml.StartElement:
 			depth++
-			used = append(used, t.Name.Space)
+			scope := map[string]bool{}
 			seen := map[xml.Name]bool{}
 			for _, attr := range t.Attr {
 				// encoding/xml accepts a repeated attribute; XML does not
@@ -168,9 +176,16 @@ func isWellFormedMathFragment(s string) bool {
 				}
 				seen[attr.Name] = true
 				if attr.Name.Space == "xmlns" {
-					bound[attr.Name.Local] = true
-				} else if attr.Name.Space != "" {
-					used = append(used, attr.Name.Space)
+					scope[attr.Name.Local] = true
+				}
+			}
+			scopes = append(scopes, scope)
+			if t.Name.Space != "" && !isBound(t.Name.Space) {
+				return false
+			}
+			for _, attr := range t.Attr {
+				if attr.Name.Space != "" && attr.Name.Space != "xmlns" && !isBound(attr.Name.Space) {
+					return false
 				}
 			}
 		case xml.EndElement:
@@ -178,6 +193,7 @@ func isWellFormedMathFragment(s string) bool {
 			if depth < 0 {
 				return false
 			}
+			scopes = scopes[:len(scopes)-1]
 			if depth == 0 {
 				closed = true
 			}
@@ -187,11 +203,6 @@ func isWellFormedMathFragment(s string) bool {
 	}
 	if depth != 0 || !closed {
 		return false
-	}
-	for _, prefix := range used {
-		if prefix != "" && !bound[prefix] {
-			return false
-		}
 	}
 	// Token() (unlike RawToken) also verifies that start and end tags match
 	decoder = xml.NewDecoder(strings.NewReader("<m:oMath>" + s + "</m:oMath>"))
